@@ -232,4 +232,15 @@ decreasing_by
   all_goals (try simp [List.length_drop])
   all_goals omega
 
+/-- `fmt % tuple(args)` for format strings made of text, `%s` and `%%` (TypeError on a count mismatch, ValueError on any
+    other conversion) -/
+def pyFormat : Str → List Str → R Str
+  | [], [] => .ok []
+  | [], _ :: _ => .error .type
+  | '%' :: 's' :: rest, a :: args => (pyFormat rest args).map (a ++ ·)
+  | '%' :: 's' :: _, [] => .error .type
+  | '%' :: '%' :: rest, args => (pyFormat rest args).map ('%' :: ·)
+  | '%' :: _, _ => .error .value
+  | c :: rest, args => (pyFormat rest args).map (c :: ·)
+
 end Drx.Lscr
